@@ -654,7 +654,9 @@ class Manager:
             event_handlers = self._cache[(event.name, channels)]
         except KeyError:
             h = (self.getHandlers(event, channel) for channel in channels)
-            found = list(chain(*h))
+            # (a handler that listens on several of the channels, or on all
+            # of them, is one handler of the event)
+            found = list(dict.fromkeys(chain(*h)))
 
             if isinstance(event, generate_events):
                 from .helpers import FallBackGenerator
